@@ -58,6 +58,8 @@ def kinds():
            K(views=[("W", "ref"), ("S", "ref")], par=True),
            K(views=[("H", "optmut"), ("W", "mut")], res=[("RB", "ref")], par=True),
            K(views=[("S", "optref")], filt=["has", "W"], entry=[("H", "mut")], par=True)]
+    # G (appended so that the numbering of the kinds above is stable): a resource holder behind a filter
+    ks += [K(views=[("S", "mut")], filt=["has", "H"], res=[("RA", "mut")])]
     return ks
 
 def name(i):
@@ -237,15 +239,37 @@ def family(tier, ks):
                 if not conflict(ka, ks[b]) and not conflict(ks[b], kc):
                     res_par.append((a, b, c))
     rnd.shuffle(res_par)
+    # a resource holder; then a stage of two: the first conflicts with the holder through a component
+    # only (so that, on worlds where they touch different tables, it is admitted at run time as an
+    # add-on), the second conflicts with the holder through the resource only and must still be
+    # refused after the first was admitted
+    res_addon = []
+    for a, b, c in itertools.product(plain, repeat=3):
+        ka, kb, kc = ks[a], ks[b], ks[c]
+        if ka["res"] and ka["views"] and kb["views"] and not kb["res"] and kc["res"] \
+           and comp_conflict(ka, kb) and conflict(ka, kc) and not comp_conflict(ka, kc) and not conflict(kb, kc):
+            res_addon.append((a, b, c))
+    rnd.shuffle(res_addon)
+    # the instance that is dynamically disjoint on the Has<H> / Not<Has<H>> world: the holder works on
+    # the {S,H} rows, the first task of the next stage on the {S} rows (admitted), the second one
+    # reads / writes the holder's resource (must be refused)
+    def findk(views, filt, res):
+        for i, k in enumerate(ks):
+            if sorted(k["views"]) == sorted(views) and k["filter"] == filt and sorted(k["res"]) == sorted(res) and not k["entry"] and not k["par"]:
+                return i
+        raise KeyError((views, filt, res))
+    hold = findk([("S", "mut")], ["has", "H"], [("RA", "mut")])
+    other = findk([("S", "mut")], ["not", ["has", "H"]], [])
+    res_addon = [(hold, other, ra_r), (hold, other, findk([], ["none"], [("RA", "mut")]))] + res_addon
     rnd.shuffle(res_tr)
-    triples = [t for t in triples if t not in res_tr and t not in res_par]
+    triples = [t for t in triples if t not in res_tr and t not in res_par and t not in res_addon]
     if tier == "quick":
         pairs = pc[:36] + pn[:40]
-        triples = res_tr[:8] + res_par[:4] + triples[:36]
+        triples = res_tr[:8] + res_par[:4] + res_addon[:6] + triples[:34]
         quads = qa[:8] + qb[:4]
     else:
         pairs = pc[:300] + pn[:300]
-        triples = res_tr[:60] + res_par[:30] + triples[:300]
+        triples = res_tr[:60] + res_par[:30] + res_addon[:40] + triples[:290]
         quads = qa[:48] + qb[:24]
     return [("p%03d" % i, p) for i, p in enumerate(pairs)] + [("t%03d" % i, t) for i, t in enumerate(triples)] + \
            [("q%03d" % i, q) for i, q in enumerate(quads)]
